@@ -35,3 +35,10 @@ spec fn valid_date(y: int, m: int, d: int) -> bool {
     ensures
         (r is Ok) == (h1 * 10 + h2 <= 23 && m1 * 10 + m2 <= 59),
         r is Ok ==> r->Ok_0 as int == sign as int * ((h1 * 10 + h2) * 60 + (m1 * 10 + m2)),
+
+//@ contract offset_doc ret=r
+    requires
+        sign == 0x2b || sign == 0x2d,      // one_of((b'+', b'-')) matched
+        hours <= 23, minutes <= 59,        // time_hour / time_minute ranges (K2)
+    ensures
+        r as int == (if sign == 0x2b { 1int } else { -1int }) * (hours as int * 60 + minutes as int),
